@@ -136,7 +136,7 @@ Fixpoint flatten_list (l : list ptree) (s : pstore) : option (list ptree * list 
 End Flatten.
 
 (* structure handling, lines 126-180; works on the structure-name memo of the top frame *)
-Inductive sres := SOk (tm : alist tdef) | SNo | SRaise.
+Inductive stres := StOk (tm : alist tdef) | StNo | StRaise.
 
 Definition lookup_all (tm : alist tdef) (names : list string) : option (list tdef) :=
   (fix go (l : list string) : option (list tdef) :=
@@ -145,21 +145,21 @@ Definition lookup_all (tm : alist tdef) (names : list string) : option (list tde
      | n :: r => match aget tm n, go r with Some d, Some ds => Some (d :: ds) | _, _ => None end
      end) names.
 
-Definition structure_step (spec : sspec) (structure : tdef) (tm : alist tdef) : sres :=
+Definition structure_step (spec : sspec) (structure : tdef) (tm : alist tdef) : stres :=
   match spec with
   | SName n =>
       match aget tm n with
-      | None => SOk (aset tm n structure)
-      | Some prev => if tdef_eqb prev structure then SOk tm else SNo
+      | None => StOk (aset tm n structure)
+      | Some prev => if tdef_eqb prev structure then StOk tm else StNo
       end
   | SComp pre suf names =>
       match lookup_all tm names with
-      | None => SRaise                                   (* AnnotationError: name not seen before *)
+      | None => StRaise                                   (* AnnotationError: name not seen before *)
       | Some ds =>
           let named := compose_impl ds in
-          if pre then (if is_prefix named structure then SOk tm else SNo)
-          else if suf then (if suffix_check named structure then SOk tm else SNo)
-          else (if tdef_eqb structure named then SOk tm else SNo)
+          if pre then (if is_prefix named structure then StOk tm else StNo)
+          else if suf then (if suffix_check named structure then StOk tm else StNo)
+          else (if tdef_eqb structure named then StOk tm else StNo)
       end
   end.
 
@@ -217,13 +217,13 @@ Fixpoint leafmatch (l : leafty) (x : ptree) (s : pstore) {struct l} : verdict * 
           | Some (leaves, structure_x) =>
               let '(m, tm) := top_frame s2 in
               let sr := match structure with
-                        | None => SOk tm
+                        | None => StOk tm
                         | Some str => structure_step (read_structure str) structure_x tm
                         end in
               match sr with
-              | SRaise => (Raise AnnotationErr, restore s2)
-              | SNo => (Rej, restore s2)
-              | SOk tm' =>
+              | StRaise => (Raise AnnotationErr, restore s2)
+              | StNo => (Rej, restore s2)
+              | StOk tm' =>
                   let s3 := set_top s2 (fst (top_frame s2), tm') in
                   (* the leaf loop, 183-193; `finally: clear_treepath_memo()` *)
                   let '(vd, s4) :=
@@ -302,13 +302,13 @@ Definition pytree_body (l1 : leafty) (structure : option string) (x : ptree) (s 
   | Some (leaves, structure_x) =>
       let '(m, tm) := top_frame s2 in
       let sr := match structure with
-                | None => SOk tm
+                | None => StOk tm
                 | Some str => structure_step (read_structure str) structure_x tm
                 end in
       match sr with
-      | SRaise => (Raise AnnotationErr, restore s2)
-      | SNo => (Rej, restore s2)
-      | SOk tm' =>
+      | StRaise => (Raise AnnotationErr, restore s2)
+      | StNo => (Rej, restore s2)
+      | StOk tm' =>
           let s3 := set_top s2 (fst (top_frame s2), tm') in
           let '(vd, s4) := leaf_loop (check_fn l1) structure leaves 0%nat s3 in
           let s5 := with_path s4 None in
